@@ -135,7 +135,7 @@ def make_rounding_contracts(default_mode):
     def c_shifted_div_rounded(ex, st, fr, callee, args):
         x, k, d, marg = args
         mode = _mode_of(ex, st, marg, default_mode)
-        if mode is None or not is_conc(k.t):
+        if mode is None or not is_conc(k.t) or k.t > 38:
             return NotImplemented
         dom = T.band(T.le(-MAXC, x.t), T.le(-MAXC, d.t), T.bnot(T.eq(d.t, 0)))
         if not ex.proves(st, dom, 2000):
@@ -155,7 +155,7 @@ def make_rounding_contracts(default_mode):
     def c_mul_div_ten_pow_rounded(ex, st, fr, callee, args):
         x, y, p, marg = args
         mode = _mode_of(ex, st, marg, default_mode)
-        if mode is None or not is_conc(p.t):
+        if mode is None or not is_conc(p.t) or p.t > 38:
             return NotImplemented
         dom = T.band(T.le(-MAXC, x.t), T.le(-MAXC, y.t))
         if not ex.proves(st, dom, 2000):
